@@ -25,7 +25,7 @@ static i128 zval(const ZN &z) {
   return z < ZN(0) ? -r : r; }
 static ZN mkz(i128 v) { bool neg = v < 0; u128 u = neg ? (u128)(-v) : (u128)v; ZN hi = ZN::from_uint64((uint64_t)(u >> 64)), lo = ZN::from_uint64((uint64_t)u);
   ZN r = (hi << ZN(64)) + lo; return neg ? -r : r; }
-static i128 wz(const Wit &w, const std::string &p) { return (i128)(((u128)w.u(p + ".f0.a[0].f1") << 64) | (u128)w.u(p + ".f0.a[0].f0")); }
+static i128 wz(const Wit &w, const std::string &p) { return (i128)(((u128)w.u(p + ".f0.a.f1") << 64) | (u128)w.u(p + ".f0.a.f0")); }
 static RVAR mkvar(uint64_t idx) { return RVAR(VN(idx), crab::INT_TYPE, 32); }
 static i128 eval(const RLE &e, const Val &val) {
   i128 r = zval(e.constant());
